@@ -25,18 +25,17 @@ func (r *Repository) GetFilePathsChangedByCommit(commitID Hash) ([]string, error
 	}
 
 	if len(parentCommitIDs) == 0 {
-		filePaths, err := r.executor("ls-tree", "--name-only", "-r", commitID.String()).executeString()
+		filePaths, err := r.executor("ls-tree", "-z", "--name-only", "-r", commitID.String()).executeRaw()
 		if err != nil {
 			return nil, fmt.Errorf("unable to identify all commit file paths: %w", err)
 		}
 
-		paths := strings.Split(filePaths, "\n")
-		return paths, nil
+		return splitNUL(filePaths), nil
 	}
 
 	if len(parentCommitIDs) > 1 {
 		// Check if tree matches last commit
-		stdOut, err := r.executor("diff-tree", "--no-commit-id", "--name-only", "-r", parentCommitIDs[len(parentCommitIDs)-1].String(), commitID.String()).executeString()
+		stdOut, err := r.executor("diff-tree", "-z", "--no-commit-id", "--name-only", "-r", parentCommitIDs[len(parentCommitIDs)-1].String(), commitID.String()).executeRaw()
 		if err != nil {
 			return nil, fmt.Errorf("unable to diff commit against last parent commit: %w", err)
 		}
@@ -46,7 +45,7 @@ func (r *Repository) GetFilePathsChangedByCommit(commitID Hash) ([]string, error
 
 		pathSet := map[string]bool{}
 		for _, parentCommitID := range parentCommitIDs {
-			stdOut, err := r.executor("diff-tree", "--no-commit-id", "--name-only", "-r", parentCommitID.String(), commitID.String()).executeString()
+			stdOut, err := r.executor("diff-tree", "-z", "--no-commit-id", "--name-only", "-r", parentCommitID.String(), commitID.String()).executeRaw()
 			if err != nil {
 				return nil, fmt.Errorf("unable to diff commit against parent: %w", err)
 			}
@@ -54,11 +53,7 @@ func (r *Repository) GetFilePathsChangedByCommit(commitID Hash) ([]string, error
 				continue
 			}
 
-			paths := strings.Split(stdOut, "\n")
-			for _, path := range paths {
-				if path == "" {
-					continue
-				}
+			for _, path := range splitNUL(stdOut) {
 				pathSet[path] = true
 			}
 		}
@@ -75,7 +70,7 @@ func (r *Repository) GetFilePathsChangedByCommit(commitID Hash) ([]string, error
 		return paths, nil
 	}
 
-	stdOut, err := r.executor("diff-tree", "--no-commit-id", "--name-only", "-r", fmt.Sprintf("%s~1", commitID.String()), commitID.String()).executeString()
+	stdOut, err := r.executor("diff-tree", "-z", "--no-commit-id", "--name-only", "-r", fmt.Sprintf("%s~1", commitID.String()), commitID.String()).executeRaw()
 	if err != nil {
 		return nil, fmt.Errorf("unable to diff commit against parent: %w", err)
 	}
@@ -83,6 +78,15 @@ func (r *Repository) GetFilePathsChangedByCommit(commitID Hash) ([]string, error
 		return nil, nil
 	}
 
-	paths := strings.Split(stdOut, "\n")
-	return paths, nil
+	return splitNUL(stdOut), nil
+}
+
+// splitNUL splits NUL-terminated plumbing output (-z) into its records. Path
+// names are returned verbatim: never quoted, trimmed or split.
+func splitNUL(out string) []string {
+	out = strings.TrimSuffix(out, "\x00")
+	if out == "" {
+		return nil
+	}
+	return strings.Split(out, "\x00")
 }
